@@ -101,6 +101,7 @@ void CommonLoop::runThisAfterLoop()
     if (sp_run_read_event_ != nullptr) {
         CHECK_DELETE_RESET_OBJ(sp_run_read_event_);
         CHECK_CLOSE_RESET_FD(run_event_fd_);
+        has_commit_run_req_ = false;    //! the pending wake-up died with the eventfd
     }
 }
 
